@@ -319,12 +319,30 @@ func Guard(sig string, f func() *Violation) (v *Violation) {
 	return f()
 }
 
+// trimStack keeps "function file:line" frames only: argument values and goroutine numbers differ between
+// runs, and rapid shrinks only failures whose message reproduces exactly.
 func trimStack(b []byte) string {
-	s := string(b)
-	if len(s) > 3000 {
-		s = s[:3000] + "…"
+	lines := strings.Split(string(b), "\n")
+	var out []string
+	for i := 0; i+1 < len(lines) && len(out) < 24; i++ {
+		l := lines[i]
+		nx := strings.TrimSpace(lines[i+1])
+		if !strings.HasPrefix(lines[i+1], "\t") || strings.HasPrefix(l, "goroutine ") {
+			continue
+		}
+		if j := strings.LastIndexByte(l, '('); j > 0 {
+			l = l[:j]
+		}
+		if j := strings.Index(nx, " +0x"); j > 0 {
+			nx = nx[:j]
+		}
+		if strings.Contains(l, "runtime/debug.Stack") || strings.Contains(l, "vstat.Guard") || strings.HasPrefix(l, "panic") {
+			continue
+		}
+		out = append(out, "  "+l+" "+nx)
+		i++
 	}
-	return s
+	return strings.Join(out, "\n")
 }
 
 // ---------------------------------------------------------------------------------------------
